@@ -419,7 +419,7 @@ fn validate_magics(entries: &[Entry], size: u64, dirs: &[(i8, i8)], what: &str) 
 
 fn run_draws(env: &Env, agg: &mut Stats) -> Option<Violation> {
     let name = "C11/magic-draws";
-    let n = env.tier.pick(2, 6);
+    let n = env.tier.pick(8, 24);
     let dir = "/verif/target/scratch";
     let _ = std::fs::create_dir_all(dir);
     let results: Vec<Result<(u64, u64, u64), String>> = (0..n)
